@@ -215,3 +215,48 @@ func VxH_C02_par2(opA, opB, sameKey, seam int) {
 	xsync.VxAssert((ab && fab) || (ba && fba), "C02 linearizable: some order of the two calls explains all results and the final contents")
 	xsync.VxAssert((ab && fab && lab) || (ba && fba && lba), "C06: the evicted-callback ledger is the one of a linearization (each removed entry fired once, with its own value)")
 }
+
+// genof
+func vxSettingsDo(c *xsyncMap, op int, k string, d time.Duration) {
+	switch op {
+	case 0:
+		c.SetDefaultExpiration(d)
+	case 1:
+		c.SetEvictedCallback(func(string, interface{}) {})
+	case 2:
+		c.Set(k, 1, DefaultExpiration)
+	case 3:
+		c.GetAndDelete(k)
+	case 4:
+		c.DeleteExpired()
+	case 5:
+		c.DefaultExpiration()
+	case 6:
+		c.EvictedCallback()
+	case 7:
+		c.Get(k)
+	}
+}
+
+// VxH_C14_settings: SetDefaultExpiration / SetEvictedCallback racing with the
+// calls that read those settings (data-race query; no shared harness state).
+func VxH_C14_settings(opA, opB int) {
+	now := xsync.VxI64("now")
+	xsync.VxAssume(now >= 0 && now < 1<<62)
+	xsync.VxClockSet(now)
+	c := vxNewSeamCache(NoExpiration, func(string, interface{}) {})
+	k := xsync.VxStr("k")
+	if xsync.VxBool("has") {
+		e := xsync.VxI64("e")
+		xsync.VxAssume(e >= 0)
+		vxPut(c, k, 5, e)
+	}
+	dA, dB := time.Duration(xsync.VxI64("dA")), time.Duration(xsync.VxI64("dB"))
+	xsync.VxReach("pre-state built")
+	xsync.VxPar(
+		func() { vxSettingsDo(c, opA, k, dA) },
+		func() { vxSettingsDo(c, opB, k, dB) },
+	)
+	xsync.VxObserve("count", c.Count())
+	xsync.VxReach("end")
+}
